@@ -78,7 +78,7 @@ def run(chk):
                 if rng.random() < 0.2:
                     b.append(rng.choice(probe))
             blocks.append(b + probe)
-    out = core.differential_blocks(chk, blocks, binp, oracle, label="lifecycle histories")
+    out = core.differential_blocks(chk, histcommon.with_end(blocks), binp, oracle, label="lifecycle histories")
     chk.cov["distinct_nontrivial"] = len({tuple(b) for b in blocks})
     chk.cov["traces_validated_against_impl"] = len(blocks)
     lens = [len(b) for b in blocks]
